@@ -3,7 +3,7 @@
    (they show that neither window flag of W_C08 can be dropped).  Everything here is by vm_compute. *)
 From Coq Require Import List ZArith NArith Bool.
 From PC.Base Require Import Assoc.
-From PC.Sup Require Import Model Monitors Sim RelC08 RelC08b SpecC08.
+From PC.Sup Require Import Model Monitors Sim RelC08 RelC08b SpecC08 CallC08.
 Import ListNotations.
 Open Scope N_scope.
 
@@ -77,7 +77,10 @@ Definition ex_zombie : list (tid * event) :=
   [(11, ERestartStopped 1)] ++ mk 11 101 1 ++ [(11, EApiReturn true)] ++
   [(20, EState 100 SRunning); (20, ELaunch true)] ++ boot 21 101.
 
-(* the zombie window alone: instance 100 is stopped while Pending before its goroutine was begun;
+(* NO LONGER A RUN OF THE MODEL (hardened model: the creation write "Pending" belongs to runProcess, on the
+   creating thread, before the registration).  In the first version of the model this history was accepted
+   and showed a C08 violation with w_zombie as the only flag:
+   instance 100 is stopped while Pending before its goroutine was begun;
    its successor 101 is launched; a late "Pending" write for 100 (the model does not tie that write to
    runProcess) makes a stop of 101 take the Pending branch although 101's command is alive;
    a restart then launches 102 next to it *)
@@ -109,11 +112,12 @@ Lemma ex_zombie_bad :
   windows_of (final_obs cs_disabled ex_zombie) = [true; false; true; false; false; false; false].
 Proof. split; [accepted|]. split; vm_compute; reflexivity. Qed.
 
-Lemma ex_zombie_only_bad :
-  (exists s, accept (init cs_disabled false) ex_zombie_only = Some s) /\
-  holds_C08 cs_disabled ex_zombie_only = false /\
-  windows_of (final_obs cs_disabled ex_zombie_only) = [true; false; false; false; false; false; false].
-Proof. split; [accepted|]. split; vm_compute; reflexivity. Qed.
+(* the hardened model rejects it at event 31, the late (99, EState 100 SPending) *)
+Lemma ex_zombie_only_rejected :
+  accept (init cs_disabled false) ex_zombie_only = None /\
+  fst (accept_prefix (init cs_disabled false) ex_zombie_only 0) = 31%nat /\
+  nth 31 ex_zombie_only (0, EResume) = (99, EState 100 SPending).
+Proof. repeat split; vm_compute; reflexivity. Qed.
 
 Lemma C08_refuted_lemma : exists cs ord evs s, accept (init cs ord) evs = Some s /\ holds_C08 cs evs = false.
 Proof.
@@ -134,13 +138,6 @@ Lemma C08_zombie_needed_lemma : exists cs ord evs s, accept (init cs ord) evs = 
 Proof.
   destruct ex_zombie_bad as [[s Hs] [Hh Hw]]. exists cs_disabled, false, ex_zombie, s.
   repeat split; auto; vm_compute; reflexivity.
-Qed.
-
-(* ... and w_zombie cannot be replaced by any of the other flags: all of them are false here *)
-Lemma C08_zombie_only_lemma : exists cs ord evs s, accept (init cs ord) evs = Some s /\
-  windows_of (final_obs cs evs) = [true; false; false; false; false; false; false] /\ holds_C08 cs evs = false.
-Proof.
-  destruct ex_zombie_only_bad as [[s Hs] [Hh Hw]]. exists cs_disabled, false, ex_zombie_only, s. auto.
 Qed.
 
 (* the declarative form of the main theorem *)
@@ -180,3 +177,19 @@ Lemma C08_one_live_combined_lemma : forall cs ord evs s,
   accept (init cs ord) evs = Some s -> w_dup (final_obs cs evs) = false ->
   w_zombie (final_obs cs evs) = false \/ no_stop_pending evs = true -> one_live evs.
 Proof. intros cs ord evs s Hacc Hd Hor. eapply holds_C08_one_live, C08_combined_lemma; eauto. Qed.
+
+(* ---- the call view of ex_seq: what each API call of the sequential history had done when it returned -- *)
+Fixpoint ret_views (m : amap call) (evs : list (tid * event)) : list (tid * option call * bool) :=
+  match evs with
+  | [] => []
+  | (th, e) :: r => match e with EApiReturn ok => [(th, get th m, ok)] | _ => [] end ++ ret_views (cv_step m (th, e)) r
+  end.
+
+Lemma ex_seq_calls : ret_views [] ex_seq =
+  [(11, Some (mkCall (OpStart 1) (Some true) 0 0 0), false);    (* start of a running process: fails, nothing created *)
+   (12, Some (mkCall (OpStop 1) (Some true) 0 0 1), true);      (* stop: one stop request *)
+   (1,  Some (mkCall OpRun None 1 1 0), true);
+   (13, Some (mkCall (OpStart 1) (Some false) 1 1 0), true);    (* start, none running: exactly one instance *)
+   (14, Some (mkCall (OpRestart 1) (Some true) 1 1 1), true);   (* restart: one stop request, exactly one new instance *)
+   (15, Some (mkCall (OpStop 9) (Some false) 0 0 0), false)].   (* unknown name: fails, nothing done *)
+Proof. vm_compute. reflexivity. Qed.
